@@ -1,6 +1,7 @@
 import Efp.Theory.Checker
 import Efp.Model.Graph
 import Efp.Proofs.ChainAccepted
+import Efp.Proofs.Grouped
 /-!
 # C01 — incremental recomputation equals recomputation from scratch
 
@@ -117,6 +118,57 @@ theorem edit_with_code_chain_consistent {V : Type} (g : Efp.Graph.G) (fuel u : N
     Consistent S (applyEdit S σ { J := [u], newVals := fun _ => newVal, chain := chain.map Prod.fst }) :=
   edit_preserves_consistency (fun n => (g.node n).anc) calcs S hreads hcalc σ h0 _
     (code_chain_accepted g fuel u rk hwf hbi hrk hu calcs hcalcs chain h)
+
+/-- **grouped updates**: when several inputs `us` change in one `ModelingUpdate`, the code concatenates
+their chains and keeps the last occurrence of each value (`optimize_attr_updates_chain`, ported as
+`keepLast`); the result is accepted by the checker, on every graph meeting the hypotheses -/
+theorem grouped_code_chain_accepted (g : Efp.Graph.G) (fuel : Nat) (rk : Array Nat)
+    (hwf : Efp.Graph.wfOk g = true) (hbi : Efp.Graph.ancInChiOk g = true)
+    (hrk : Efp.Graph.rankOk g rk fuel = true)
+    (us : List Nat) (hus : ∀ u ∈ us, u < g.size) (chains : List (List (Nat × Bool)))
+    (h : us.map (Efp.Graph.attrUpdatesChain g fuel) = chains.map some)
+    (calcs : List Nat) (hcalcs : ∀ n ∈ calcs, n < g.size ∧ n ∉ us) :
+    chainOk (fun n => (g.node n).anc) calcs us ((Efp.Graph.keepLast chains.flatten).map Prod.fst) = true := by
+  have hW := Efp.Graph.wfOk_sound g hwf
+  have hB := Efp.Graph.ancInChiOk_sound g hbi
+  have key : ∃ ucs : List (Nat × List Nat), ucs.map Prod.fst = us ∧
+      ucs.map Prod.snd = chains.map (fun c => c.map Prod.fst) ∧
+      ∀ p ∈ ucs, p.1 < g.size ∧ Efp.Graph.ChainSpec g p.1 p.2 := by
+    clear hcalcs
+    induction us generalizing chains with
+    | nil =>
+      cases chains with
+      | nil => exact ⟨[], rfl, rfl, fun p hp => by cases hp⟩
+      | cons c cs => simp at h
+    | cons u us' ih =>
+      cases chains with
+      | nil => simp at h
+      | cons c cs' =>
+        simp only [List.map_cons, List.cons.injEq] at h
+        obtain ⟨huc, hrest⟩ := h
+        obtain ⟨ucs, e1, e2, e3⟩ := ih (fun u hu => hus u (by simp [hu])) cs' hrest
+        have hu : u < g.size := hus u (by simp)
+        refine ⟨(u, c.map Prod.fst) :: ucs, by simp [e1], by simp [e2], ?_⟩
+        intro p hp
+        rcases List.mem_cons.mp hp with rfl | hp
+        · exact ⟨hu, Efp.Graph.chainSpec_of_correct g hW fuel u hu
+            (fun k a hr => Efp.Graph.rankOk_depth g hW rk fuel hrk u hu k a hr) c huc⟩
+        · exact e3 p hp
+  obtain ⟨ucs, e1, e2, e3⟩ := key
+  have := Efp.Graph.merged_chain_accepted g hW hB ucs e3 calcs (by rw [e1]; exact hcalcs)
+  rw [e1, e2] at this
+  rw [Efp.Graph.keepLast_map_fst, List.map_flatten]
+  exact this
+
+/-! keeping the *first* occurrence instead (seed C01-a) is rejected: inputs 0 and 1, 0 → 2 → 3, 1 → 3;
+chains [2, 3] and [3]: keep-last gives [2, 3], keep-first of the reversed grouping [3] ++ [2, 3] gives [3, 2] -/
+def demoG2 : Efp.Graph.G := #[
+  { uid := 0, sid := 0, inDict := false, anc := [], chi := [2] },
+  { uid := 1, sid := 1, inDict := false, anc := [], chi := [3] },
+  { uid := 2, sid := 2, inDict := false, anc := [0], chi := [3], isCalc := true },
+  { uid := 3, sid := 3, inDict := false, anc := [2, 1], chi := [], isCalc := true }]
+example : chainOk (fun n => (demoG2.node n).anc) [2, 3] [1, 0] (Efp.Graph.keepLastN ([3] ++ [2, 3])) = true := by decide +kernel
+example : chainOk (fun n => (demoG2.node n).anc) [2, 3] [1, 0] [3, 2] = false := by decide +kernel
 
 /-! non-vacuity of the hypotheses: input 0 → 1 → 3, 0 → 2 → 3 (a diamond); the port returns [1, 2, 3] -/
 def demoG : Efp.Graph.G := #[
